@@ -647,6 +647,7 @@ class VM:
         self.fork_funcs = set()
         self.bounds = {}
         self.class_shadow = {}
+        self.global_shadow = {}
 
     def inp(self, name, fork=False):
         v = var(name)
@@ -1213,7 +1214,26 @@ class Ctx:
         if e.id in fr.closure:
             return fr.closure[e.id]
         if e.id in fr.globals:
-            return fr.globals[e.id]
+            v = fr.globals[e.id]
+            if isinstance(v, (dict, set, list, weakref.WeakKeyDictionary, weakref.WeakValueDictionary, weakref.WeakSet)) and \
+                    fr.globals.get('__name__') in self.vm.mods:
+                # a mutable module-level container of an interpreted module (a cache, a registry): it lives as long as the
+                # process, so the run works on ONE shadow copy that persists across the calls of the harness
+                key = (fr.globals.get('__name__'), e.id)
+                if key not in self.vm.global_shadow:
+                    if isinstance(v, (set, weakref.WeakSet)):
+                        sh = MSet()
+                        for x in list(v):
+                            sh.put(x, True)
+                    elif isinstance(v, list):
+                        sh = MList(list(v))
+                    else:
+                        sh = MDict()
+                        for k_, x in list(v.items()):
+                            Ctx(self.vm, self.fr, True).setitem(sh, k_, x)
+                    self.vm.global_shadow[key] = sh
+                return self.vm.global_shadow[key]
+            return v
         if hasattr(builtins, e.id):
             return getattr(builtins, e.id)
         raise Unsupported('name %s' % e.id)
